@@ -91,6 +91,10 @@ def treeDelItem (ptr : Nat) : TNode → TNode
 def treeAddSub (newId hdrAddr : Nat) : TNode → TNode
   | .mk i h its subs => .mk i h its (subs ++ [.mk newId hdrAddr [] []])
 
+/-- failure path of `tree_realloc`: the unlinked item goes back to the end of `alloc_list` -/
+def treeReaddItems (old : List (Nat × Nat)) : TNode → TNode
+  | .mk i h its subs => .mk i h (its ++ old) subs
+
 /-- `cx_alloc(tree id, len)`; `pa` = answer of `real` to `treeReq len` -/
 def treeAlloc (t : TNode) (id len : Nat) (pa : Option Nat) : Option (TNode × Nat) :=
   if len = 0 then none else
@@ -111,8 +115,7 @@ def treeRealloc (t : TNode) (id ptr len : Nat) (pa : Option Nat) : TNode × Opti
     let old := match t.find id with
       | some n => (n.items.filter (fun it => it.1 + treeHdr == ptr))
       | none => []
-    ((t.update (treeDelItem ptr) id).update
-      (fun | .mk i h its subs => .mk i h (its ++ old) subs) id, none)
+    ((t.update (treeDelItem ptr) id).update (treeReaddItems old) id, none)
   | none, _ => (t, none)
 
 end Usual.C09
